@@ -138,7 +138,11 @@ def check_pad16(ctx, P):
 def check_finalize_raw(ctx, P):
     fn = P.fn(M + "finalize_raw")
     seq = [r"chacha20poly1305::pad16$", r"cryptoutil::write_u64_le$", r"cryptoutil::write_u64_le$", MAC_INPUT, MAC_RAW]
-    mn, _ = rules.call_sequence_min_progress(fn, seq)
+    # what is ordered is what reaches the MAC: padding, then the length block, then the result; and the length block must
+    # be written before it is fed.  The padding and the writes into the local length buffer are independent of each other.
+    mn1, _ = rules.call_sequence_min_progress(fn, [seq[0], seq[3], seq[4]])
+    mn2, _ = rules.call_sequence_min_progress(fn, [seq[1], seq[2], seq[3], seq[4]])
+    mn = 5 if (mn1 == 3 and mn2 == 4) else min(mn1, mn2)
     ctx.check(mn == 5, "trailer-order", "finalize_raw", "pad16(data_len) -> LE64(aad_len) -> LE64(data_len) -> mac.input(lengths) -> raw_result", "finalize_raw does not run pad, both length writes, MAC input, raw_result in order (progress %d/5)" % mn, where=fn.where(), key="trailer-order")
     pads = fn.calls_to(seq[0])
     ctx.check(len(pads) == 1 and cn(fn, pads[0].args[0]) == "arg1.mac" and cn(fn, pads[0].args[1]) == "arg1.data_len", "trailer-wire", "pad16(data_len)", "ciphertext is padded with pad16(mac, data_len)", "finalize_raw does not pad with data_len", where=fn.where(), key="trailer-wire:pad")
